@@ -169,6 +169,12 @@ type vf08Obj struct {
 	locks   []vf08Lock
 	tombs   []vf08Tomb // tombstone objects tried for it (accepted or not)
 	lost    bool
+	// set when the loss was reported: how it was lost and whether the data still existed
+	lostCause    string
+	lostWithBlob bool
+	gone         bool
+	// what the shards holding the data said about it after the previous step
+	holdersWere string
 }
 
 type vf08Tomb struct {
@@ -375,6 +381,52 @@ func (v *vf08Env) stores(s *vf08Shard, a oid.Address) bool {
 	return ok || err != nil
 }
 
+// holdersState summarises, for the shards that physically hold x, the record each keeps
+// for it apart from expiration (clean / garbage-marked, even when a lock overrides the
+// mark for readers / tombstoned) - "expired-only" is a clean record of an object whose
+// own expiration has passed - and whether a live lock is stored next to it.  Diagnosis only.
+func (v *vf08Env) holdersState(x *vf08Obj) string {
+	holders, lockOn, _ := v.lockPlacement(x)
+	set := map[string]bool{}
+	for _, h := range holders {
+		s := v.shards[h]
+		st := "no-metabase"
+		if !s.sh.GetMode().NoMetabase() {
+			ok, err := s.sh.Exists(x.addr, true)
+			marked, _ := s.sh.Verif08HasGarbageMark(x.addr)
+			switch {
+			case errors.Is(err, apistatus.ErrObjectAlreadyRemoved):
+				st = "tombstoned"
+			case marked:
+				st = "garbage-marked"
+			case err == nil && ok:
+				st = "clean"
+				if v.shardView(s, x.addr) == "expired" {
+					st = "expired-only"
+				}
+			case err == nil:
+				st = "no-record"
+			case errors.Is(err, apistatus.ErrObjectNotFound):
+				st = "garbage-marked"
+			default:
+				st = "error"
+			}
+		}
+		if lockOn[h] {
+			st += "-with-lock"
+		} else {
+			st += "-without-lock"
+		}
+		set[st] = true
+	}
+	var res []string
+	for k := range set {
+		res = append(res, k)
+	}
+	sort.Strings(res)
+	return strings.Join(res, "+")
+}
+
 // diagnose names what makes the lock-protected object x unreadable: it walks the shards
 // in the order the engine reads them and reports the first shard whose own answer ends
 // the engine's search (tombstoned / expired / claims to have it), with the role of that
@@ -559,7 +611,8 @@ func vf08GenCase(r *verifkit.Run, idx int, nOps int) vf08Case {
 	for range nObj {
 		e := uint64(0)
 		if rng.IntN(2) == 0 {
-			e = uint64(2 + rng.IntN(5))
+			// early enough for the epoch advances of a history to pass it while a lock is alive
+			e = uint64(1 + rng.IntN(4))
 		}
 		c.objExp = append(c.objExp, e)
 	}
@@ -606,12 +659,29 @@ func vf08GenCase(r *verifkit.Run, idx int, nOps int) vf08Case {
 				c.ops = append(c.ops, vf08Op{kind: "put", obj: i, perm: rng.Perm(c.nShards)})
 			}
 		}
+		lockExp := epoch + uint64(1+rng.IntN(4))
+		follow := rng.IntN(3)
+		if follow == 2 {
+			// the object's own expiration will pass while the lock is still alive
+			c.objExp[ob] = uint64(1 + rng.IntN(2))
+			lockExp = c.objExp[ob] + uint64(1+rng.IntN(3))
+		}
 		c.ops = append(c.ops,
-			vf08Op{kind: "lock", obj: ob, lockExp: epoch + uint64(1+rng.IntN(4)), perm: rng.Perm(c.nShards)},
+			vf08Op{kind: "lock", obj: ob, lockExp: lockExp, perm: rng.Perm(c.nShards)},
 			unblock)
-		if rng.IntN(2) == 0 {
+		switch follow {
+		case 1:
 			// a removal attempt right after the window, in any visiting order
 			c.ops = append(c.ops, vf08Op{kind: "tomb", obj: ob, perm: rng.Perm(c.nShards)})
+		case 2:
+			// pass the object's own expiration, then let every shard collect
+			for epoch <= c.objExp[ob] {
+				epoch++
+				c.ops = append(c.ops, vf08Op{kind: "epoch", lockExp: epoch, perm: rng.Perm(c.nShards)})
+			}
+			for _, i := range rng.Perm(c.nShards) {
+				c.ops = append(c.ops, vf08Op{kind: "gc", shard: i, perm: rng.Perm(c.nShards)})
+			}
 		}
 	}
 	for len(c.ops) < nOps {
@@ -632,9 +702,9 @@ func vf08GenCase(r *verifkit.Run, idx int, nOps int) vf08Case {
 		case x < 74:
 			op.kind = "putfail"
 			op.flag = rng.IntN(3) != 0
-		case x < 88:
+		case x < 86:
 			op.kind = "gc"
-		case x < 94:
+		case x < 95:
 			op.kind = "epoch"
 			epoch++
 			op.lockExp = epoch
@@ -877,6 +947,31 @@ func vf08RunAttempt(r *verifkit.Run, c vf08Case) (res vf08Result) {
 
 		// the invariant
 		for _, x := range v.objs {
+			if x.lost && x.lostWithBlob && !x.gone && v.epoch.CurrentEpoch() <= x.lockExp && len(v.blobOn(x.addr)) == 0 {
+				// Still the same violation (the lock is alive, the object is unreadable), now
+				// beyond repair: the data that was still on a shard when the object became
+				// unreadable has been destroyed.  Reported once, as its own class, so that a
+				// change which destroys locked data is not hidden behind the earlier loss.
+				x.gone = true
+				res.count("lost_protected_objects_whose_data_was_destroyed_later", 1)
+				deg := ""
+				for _, m := range v.modes() {
+					// matters only where the collector asks the other shards for locks first
+					// (expired objects); marked/tombstoned objects are removed without asking
+					if m.NoMetabase() && strings.Contains(x.holdersWere, "expired-only") {
+						deg = "|degraded-shard-present"
+					}
+				}
+				res.findings = append(res.findings, vf08Finding{
+					key:  fmt.Sprintf("lost-then-data-destroyed|after-%s|holders-were:%s%s", trigger, x.holdersWere, deg),
+					what: fmt.Sprintf("step %d (%s): %s is locked until epoch %d (now %d), was already unreadable (first by %s) while its data was still stored; before this step the shards holding the data kept it as [%s]; now no shard has the data any more; shards [%s]", step, desc, x.label, x.lockExp, v.epoch.CurrentEpoch(), x.lostCause, x.holdersWere, v.envSig()),
+					replay: map[string]any{"case_index": c.idx, "shards": c.nShards, "error_threshold": c.thr, "object": x.label, "object_expiration": x.exp,
+						"lock_expiration": x.lockExp, "epoch": v.epoch.CurrentEpoch(), "ops": append([]string(nil), res.opLog...), "first_lost_by": x.lostCause, "holders_state_before": x.holdersWere, "shard_modes": v.envSig()},
+				})
+			}
+			if x.lost && x.lostWithBlob && !x.gone {
+				x.holdersWere = v.holdersState(x)
+			}
 			if !protected(x) {
 				continue
 			}
@@ -893,6 +988,8 @@ func vf08RunAttempt(r *verifkit.Run, c vf08Case) (res vf08Result) {
 			}
 			x.lost = true
 			cause, views := v.diagnose(x, holders, lockOn)
+			x.lostCause, x.lostWithBlob = cause, len(holders) > 0
+			x.holdersWere = v.holdersState(x)
 			deg := ""
 			for _, m := range v.modes() {
 				if m.NoMetabase() && trigger == "gc" {
